@@ -456,6 +456,7 @@ func checkClientErrorMapping(c *Ctx) {
 	ex := c.Explore(ri.Fn, 1, 4000)
 	checkedHelpers := false
 	nMethods := 0
+	ctBad, ctBadPos, retBadPos := "", "", ""
 	for _, v := range ex.Variants {
 		for _, u := range v.Units {
 			fset, f, err := ParseUnit(u)
@@ -530,9 +531,11 @@ func checkClientErrorMapping(c *Ctx) {
 							same = false
 						}
 					}
-					if nMethods <= 4 {
-						r.CheckD(same && len(uses) >= 3, "R10e", fmt.Sprintf("go-client RPC method (variant %d, %s): one content-type variable for request, header, response and error decoding", v.ID, fd.Name.Name), gen(fd.Pos()),
-							fmt.Sprintf("the per-call content type is not used consistently: %v — an error body is decoded with a different codec than the request was sent with", uses), uses)
+					{
+						if !(same && len(uses) >= 3) && ctBad == "" {
+							ctBad = fmt.Sprintf("%v", uses)
+							ctBadPos = gen(fd.Pos())
+						}
 						// status >= 400 returns the error
 						okRet := false
 						ast.Inspect(fd.Body, func(n ast.Node) bool {
@@ -543,8 +546,9 @@ func checkClientErrorMapping(c *Ctx) {
 							}
 							return true
 						})
-						r.Check(okRet, "R10e", fmt.Sprintf("go-client RPC method (variant %d, %s): every status >= 400 becomes an error", v.ID, fd.Name.Name), gen(fd.Pos()),
-							"the response status is not tested with `>= 400` returning nil and the mapped error")
+						if !okRet && retBadPos == "" {
+							retBadPos = gen(fd.Pos())
+						}
 					}
 				}
 			}
@@ -552,6 +556,14 @@ func checkClientErrorMapping(c *Ctx) {
 	}
 	if !checkedHelpers {
 		r.Unres("R10e", "go-client handleErrorResponse", "", "helper not found in any client variant")
+	}
+	if nMethods == 0 {
+		r.Unres("R10e", "go-client RPC methods", "", "no RPC method found in any client variant")
+	} else {
+		r.CheckD(ctBad == "", "R10e", "go-client RPC methods (all variants): one content-type variable for request, Content-Type header, response and error decoding", ctBadPos,
+			"the per-call content type is not used consistently: "+ctBad+" — the server encodes (error) responses in the request's content type, so the body is decoded with the wrong codec", map[string]any{"methods_checked": nMethods})
+		r.Check(retBadPos == "", "R10e", "go-client RPC methods (all variants): every status >= 400 becomes an error", retBadPos,
+			"the response status is not tested with `>= 400` returning nil and the mapped error")
 	}
 	// TS client
 	tri := c.Root("internal/tsclientgen", "_client.ts")
